@@ -61,6 +61,10 @@ def confirm_one(pid, n, d, seed_root):
     os.makedirs(os.path.join(wt, "tests"), exist_ok=True)
     shutil.copy(os.path.join(d, "demo.rs"), os.path.join(wt, "tests", "demo.rs"))
     cmd = "cargo test --offline --test demo %s 2>&1" % ("--release" if release else "")
+    if meta.get("detector") in ("miri", "asan") and re.match(r"^\s*(MIRIFLAGS=|RUSTFLAGS=|cargo )", demo_cmd):
+        # instrumented demo: run the agent's exact command
+        cmd = demo_cmd.strip() + " 2>&1"
+        res["instrumented_demo_cmd"] = demo_cmd.strip()
     rc1, out1 = sh(cmd, cwd=wt)
     res["demo_fails_with_change"] = rc1 != 0
     res["demo_with_change_tail"] = out1[-300:]
@@ -90,7 +94,7 @@ def cmd_confirm(seed_root, only=None):
     json.dump(results, open(os.path.join(seed_root, "confirm.json"), "w"), indent=1)
 
 
-def cmd_matrix(seed_root, scratch, only=None, checks=None):
+def cmd_matrix(seed_root, scratch, only=None, checks=None, thorough_primary=False):
     verif = os.path.join(scratch, "verif")
     repo = os.path.join(scratch, "repo")
     if not os.path.exists(repo):
@@ -122,6 +126,11 @@ def cmd_matrix(seed_root, scratch, only=None, checks=None):
             viol = [l for l in out.splitlines() if l.startswith("VIOLATION")]
             sigs = [l.strip()[:220] for l in out.splitlines() if re.match(r"^\s+C\d\d \[", l)]
             row[chk] = {"exit": rc, "violations": len(viol), "first": sigs[:2]}
+        if thorough_primary:
+            env2 = dict(ENV, TDV_SKIP="fuzz")
+            p2 = subprocess.run([os.path.join(verif, "check"), pid, "thorough"], cwd=verif, stdout=subprocess.PIPE, stderr=subprocess.STDOUT, text=True, env=env2, timeout=7200)
+            sigs = [l.strip()[:220] for l in p2.stdout.splitlines() if re.match(r"^\s+C\d\d \[", l)]
+            row["thorough:" + pid] = {"exit": p2.returncode, "first": sigs[:3]}
         matrix[sid] = row
         caught = [c for c in row if isinstance(row[c], dict) and row[c].get("exit") == 1]
         print(sid, "caught by", caught, "primary:", "YES" if pid in caught else "no", "(%.0fs)" % (time.time() - t0), flush=True)
@@ -134,4 +143,5 @@ if __name__ == "__main__":
     if sys.argv[1] == "confirm":
         cmd_confirm(sys.argv[2], only=set(sys.argv[3:]) or None)
     elif sys.argv[1] == "matrix":
-        cmd_matrix(sys.argv[2], sys.argv[3], only=set(sys.argv[4:]) or None)
+        args = [a for a in sys.argv[4:] if not a.startswith("--")]
+        cmd_matrix(sys.argv[2], sys.argv[3], only=set(args) or None, thorough_primary="--thorough-primary" in sys.argv)
